@@ -156,11 +156,15 @@ def run_case(c):
         if c.get("bass"):
             from mingus.containers.instrument import Instrument
             bass = tunings.get_tuning("Bass guitar", "Standard 4-string")
-            for way in ("track", "instrument", "set_tuning"):
+            for way in ("track", "instrument", "set_tuning", "track, with an instrument that has no tuning of its own"):
                 comp2 = mk_composition(p)
                 tr = comp2.tracks[0]
                 if way == "track":
                     tr.tuning = bass
+                elif way.startswith("track, with"):
+                    from mingus.containers.instrument import Piano
+                    tr.tuning = bass
+                    tr.instrument = Piano()
                 elif way == "instrument":
                     tr.instrument = Instrument()
                     tr.instrument.tuning = bass
